@@ -228,7 +228,7 @@ func (l *Loader) loadSingleInclude(
 	l.mu.RUnlock()
 	if ok {
 		subResult, subErrors := l.loadParsed(includePath, cached, visited)
-		errors = append(errors, subErrors...)
+		errors = append(errors, onDirective(subResult, subErrors, incRange)...)
 		mergeInclude(result, includePath, subResult)
 		return errors
 	}
@@ -268,7 +268,7 @@ func (l *Loader) loadSingleInclude(
 	journal, parseErrs := parser.Parse(string(incContent))
 	file := parsedFile{journal: journal, parseErrs: parseErrs}
 	subResult, subErrors := l.loadParsed(includePath, file, visited)
-	errors = append(errors, subErrors...)
+	errors = append(errors, onDirective(subResult, subErrors, incRange)...)
 
 	if subResult != nil && subResult.Primary != nil {
 		l.mu.Lock()
@@ -278,6 +278,16 @@ func (l *Loader) loadSingleInclude(
 	mergeInclude(result, includePath, subResult)
 
 	return errors
+}
+
+// onDirective places the errors of an include that could not be loaded at all (too deep) on the directive naming it.
+func onDirective(subResult *ResolvedJournal, subErrors []LoadError, incRange ast.Range) []LoadError {
+	if subResult == nil {
+		for i := range subErrors {
+			subErrors[i].Range = incRange
+		}
+	}
+	return subErrors
 }
 
 // mergeInclude adds an included file and everything it includes to the result of the including file.
